@@ -606,6 +606,11 @@ def concretise(op, p, st):
             hdr[header] = ('/' + v) if name == 'h_script' else v
         elif c != 'absent':
             raise Unknown('%s: class %r of %s' % (op, c, name))
+    # the Host header itself is outside the model (no class of the specification depends on it): any legal or junk value
+    # may come along - IPv6 literals and values with several colons included
+    if st.mode != 'benign' and st.rng.random() < 0.35:
+        hdr['Host'] = st.rng.choice(['localhost:8080', '[::1]', '[::1]:8080', '[2001:db8::1]:80', 'a:b:c', 'localhost:', ':80',
+                                     'example.org:443', '[fe80::1%25eth0]:80'])
     for name, header in (('h_inm', 'If-None-Match'), ('h_ims', 'If-Modified-Since')):
         c = g(name, 'absent')
         if c == 'garbage':
